@@ -785,7 +785,7 @@ class NodeList(FastTypedDict):
         if len(slots) != n_slots:
             # free whatever we got
             for slot in slots:
-                node = self.nodes[slot.node_index]
+                node = self._get_node(slot)
                 node.deallocate_slot(slot)
             self.__last_failed_rr__ = rr
             self.__last_failed_n__  = n_slots
@@ -794,6 +794,24 @@ class NodeList(FastTypedDict):
         self.__index__ = stop
 
         return slots
+
+
+    # --------------------------------------------------------------------------
+    #
+    def _get_node(self, slot: Slot) -> Node:
+
+        # `slot.node_index` is the node's ID (`node.index`), which is not
+        # necessarily the node's position in `self.nodes` (the agent may have
+        # dropped inaccessible nodes from the list it reports)
+        idx = slot.node_index
+        if 0 <= idx < len(self.nodes) and self.nodes[idx].index == idx:
+            return self.nodes[idx]
+
+        for node in self.nodes:
+            if node.index == idx:
+                return node
+
+        raise ValueError('no node with index %s' % idx)
 
 
     # --------------------------------------------------------------------------
@@ -810,7 +828,7 @@ class NodeList(FastTypedDict):
 
         for slot in slots:
 
-            node = self.nodes[slot.node_index]
+            node = self._get_node(slot)
             node.deallocate_slot(slot)
 
         if self.__last_failed_rr__:
